@@ -73,7 +73,7 @@ def run_naming(ext, eng, maxlen, pols=("none",), raw=(), deff=(), emit=False, ta
                   MaxLen=maxlen, Policies=_set(pols),
                   Decoy=decoy, BareIfExistsSites=_set(bare), GlobSites=_set(globsites),
                   OpsOn=_set(ops or (DECOY_OPS if decoy != "none" else DOTTED_OPS if ext in SIB_EXTS else ALLOPS)),
-                  RawSites=_set(raw), DefEngSites=_set(deff), RtRule="ok")
+                  RawSites=_set(raw), DefEngSites=_set(deff), RtRule="ok", RmRule="ok")
     tail = "".join("INVARIANT %s\n" % i for i in INV) + ("INVARIANT EmitCase\n" if emit else "") + "CHECK_DEADLOCK FALSE\n"
     return _tlc("DsStore", consts, tail, name="MC_DsStore_%s%s_%s%s" % (eng, _extid(ext), tag, ("_ctor" if ctor else "") + ("_" + decoy if decoy != "none" else "")), **kw)
 
@@ -81,10 +81,19 @@ def run_naming(ext, eng, maxlen, pols=("none",), raw=(), deff=(), emit=False, ta
 def run_rt(ext, eng, rule="ok", emit=False, **kw):
     consts = dict(NameExt=ext, NameRule="append", Engine=eng, CtorEngine=eng, CtorEngSites=_set([]), Decoy="none",
                   BareIfExistsSites=_set([]), GlobSites=_set([]), MaxLen=0, Policies=_set(["none"]), OpsOn=_set([]),
-                  RawSites=_set([]), DefEngSites=_set([]), RtRule=rule)
+                  RawSites=_set([]), DefEngSites=_set([]), RtRule=rule, RmRule="ok")
     tail = "INIT RtInit\nNEXT RtNext\n" + "".join("INVARIANT %s\n" % i for i in RTINV) \
         + ("INVARIANT RtEmit\n" if emit else "") + "CHECK_DEADLOCK FALSE\n"
     return _tlc("DsStore", consts, tail, name="MC_DsStoreRt_%s%s_%s" % (eng, _extid(ext), rule), **kw)
+
+
+def run_rm(eng, rule="ok", emit=False, **kw):
+    consts = dict(NameExt="", NameRule="append", Engine=eng, CtorEngine=eng, CtorEngSites=_set([]), Decoy="none",
+                  BareIfExistsSites=_set([]), GlobSites=_set([]), MaxLen=0, Policies=_set(["none"]), OpsOn=_set([]),
+                  RawSites=_set([]), DefEngSites=_set([]), RtRule="ok", RmRule=rule)
+    tail = "INIT RmInit\nNEXT RmNext\nINVARIANT RmIdentity\nINVARIANT RmDir\n" + ("INVARIANT RmEmit\n" if emit else "") \
+        + "CHECK_DEADLOCK FALSE\n"
+    return _tlc("DsStore", consts, tail, name="MC_DsStoreRm_%s_%s" % (eng, rule), **kw)
 
 
 # ---------------------------------------------------------------------------
@@ -426,8 +435,81 @@ def check_rt(c):
         shutil.rmtree(td, ignore_errors=True)
 
 
+RM_EXPECT = {   # (target, change) -> piece merged in, dataset handed to the save
+    ("coord", "frac"): (([2.5], [25]), ([1.0, 2.0, 2.5], [10.0, 20.0, 25.0])),
+    ("var", "frac"): (([3], [2.5]), ([1.0, 2.0, 3.0], [10.0, 20.0, 2.5])),
+    ("var", "wholenan"): (([3], [float("nan")]), ([1.0, 2.0, 3.0], [10.0, 20.0, float("nan")])),
+}
+
+
+def check_rm(c):
+    """save (integers) -> load (memory / chunks) -> extend (floats) -> save -> load: what was handed to the second
+    save must be what the second load returns."""
+    xyz = common.use_repo()
+    import numpy as np
+    import xarray as xr
+    cfg, eng, name = c["rm"], c["engine"], c.get("name", "data")
+    (px, pv), (wx, wv) = RM_EXPECT[(cfg["target"], cfg["change"])]
+    chunks = {"none": None, "int": 1, "dict": {"x": 1}}[cfg["chunks"]]
+    key = dict(part="reload", engine=eng, target=cfg["target"], change=cfg["change"], chunks=cfg["chunks"], saver=cfg["saver"])
+    label = "save_ds(integers) -> load_ds(chunks=%r) -> extend with %s (%s) -> %s -> load_ds" % (
+        chunks, "fractional values" if cfg["change"] == "frac" else "whole numbers and NaN", cfg["target"], cfg["saver"])
+    td = tempfile.mkdtemp(prefix="c14-", dir=common.scratch("c14"))
+    cwd = os.getcwd()
+    os.chdir(td)
+    opened = []
+    try:
+        ds0 = xr.Dataset({"v": ("x", np.array([10, 20]))}, coords={"x": np.array([1, 2])})
+        piece = xr.Dataset({"v": ("x", np.array(pv))}, coords={"x": np.array(px)})
+        try:
+            xyz.save_ds(ds0, name, engine=eng)
+            if cfg["saver"] == "save_ds":
+                l = xyz.load_ds(name, engine=eng, chunks=chunks)
+                opened.append(l)
+                if cfg["target"] == "var":
+                    # the user extends the loaded dataset along x: the new slot is NaN, or is then filled in
+                    ext = l.reindex(x=[1, 2, 3]).load()
+                    if cfg["change"] == "frac":
+                        ext["v"].loc[{"x": 3}] = 2.5
+                else:
+                    ext = xr.merge([l, piece]).load()
+                l.close()
+                xyz.save_ds(ext, name, engine=eng)
+            elif cfg["saver"] == "save_merge_ds":
+                xyz.save_merge_ds(piece, name, engine=eng)
+            else:
+                runner = xyz.Runner(lambda x: 1.0 * x, var_names="v")
+                h = xyz.Harvester(runner, data_name=name, engine=eng, chunks=chunks)
+                h.add_ds(piece)
+                if h._full_ds is not None:
+                    opened.append(h._full_ds)
+            for o in opened:
+                o.close()
+            got = xyz.load_ds(name, engine=eng)
+        except Exception as e:  # noqa
+            return [(dict(key, what="raises"), "%s: raised %s: %s" % (label, type(e).__name__, str(e)[:200]))]
+        if sorted(os.listdir(td)) != [c["file"]]:
+            return [(dict(key, what="directory"), "%s: directory holds %r" % (label, sorted(os.listdir(td))))]
+        gx = np.asarray(got["x"].values, dtype=float) if "x" in got.coords else None
+        gv = np.asarray(got["v"].values, dtype=float) if "v" in got else None
+        if gx is None or gv is None or not np.array_equal(gx, np.array(wx)) or not np.array_equal(gv, np.array(wv), equal_nan=True):
+            return [(dict(key, what="values"), "%s: loaded x=%r v=%r, the dataset saved had x=%r v=%r" % (
+                label, None if gx is None else got["x"].values.tolist(), None if gv is None else got["v"].values.tolist(), wx, wv))]
+        return []
+    finally:
+        for o in opened:
+            try:
+                o.close()
+            except Exception:  # noqa
+                pass
+        os.chdir(cwd)
+        shutil.rmtree(td, ignore_errors=True)
+
+
 def _chk(c):
     try:
+        if "rm" in c:
+            return (c, check_rm(c), [], None)
         if "hist" in c:
             return (c, check_hist(c), [], None)
         bad, notes = check_rt(c)
@@ -497,6 +579,10 @@ def run(rep):
             jobs[("M", e, g)] = ex.submit(run_naming, e, g, len_a - 1, ("none",), emit=True, tag="M", workers=1, coverage=True,
                                           ops=None if thorough else MAGIC_OPS_QUICK)
         jobs[("glob", "load")] = ex.submit(run_naming, "[1]", "h5netcdf", 3, globsites=["load"], tag="glob", workers=1)
+        jobs[("rm", "", "h5netcdf")] = ex.submit(run_rm, "h5netcdf", emit=True, workers=1, coverage=True)
+        jobs[("rm", "", "joblib")] = ex.submit(run_rm, "joblib", emit=True, workers=1, coverage=True)
+        for rule in ("wholeKeepsInt", "dropOnEagerLoadOnly"):
+            jobs[("rmrule", rule)] = ex.submit(run_rm, "h5netcdf", rule=rule, workers=1)
         jobs[("namerule", "splitext")] = ex.submit(run_naming, DOTTED, "h5netcdf", 3, namerule="splitext", tag="splitext", workers=1)
         # deviating implementations the invariants must reject
         jobs[("pinned", "", "h5netcdf")] = ex.submit(run_naming, "", "h5netcdf", 3, raw=["mergeTest", "harvTest", "harvRemove"],
@@ -511,7 +597,7 @@ def run(rep):
             jobs[("rtrule", rule)] = ex.submit(run_rt, "", eng, rule=rule, workers=1)
         results = {k: f.result() for k, f in jobs.items()}
     for k, r in results.items():
-        if k[0] in ("pinned", "rtrule", "namerule", "ctorsites", "bare", "glob") or (k[0] == "site" and k[1] != "harvRemove"):
+        if k[0] in ("pinned", "rtrule", "namerule", "ctorsites", "bare", "glob", "rmrule") or (k[0] == "site" and k[1] != "harvRemove"):
             if r.violated is None:
                 raise tlc.TLCError("self-test failed: deviating model %r is not rejected by the invariants" % (k,))
     rep.note("self-test: TLC rejects the pinned naming (%s for 'data'/h5netcdf, %s for 'data.dmp'/joblib), every single site "
@@ -526,15 +612,16 @@ def run(rep):
     rep.note("self-test: TLC rejects load_ds expanding a name with glob metacharacters as a pattern: %s" % results[("glob", "load")].violated)
     rep.note("self-test: TLC rejects load_ds using the bare name when an older dataset file of that name exists: %s"
              % results[("bare", "load")].violated)
-    hists, rts = [], []
-    for (kind, ext, eng), r in [(k, r) for k, r in results.items() if k[0] in ("A", "B", "C", "Ddir", "Dfile", "M", "rt")]:
+    hists, rts, rms = [], [], []
+    for (kind, ext, eng), r in [(k, r) for k, r in results.items() if k[0] in ("A", "B", "C", "Ddir", "Dfile", "M", "rt", "rm")]:
         rep.add_tlc("DsStore %s name=%s engine=%s" % ({"A": "naming", "B": "naming+policies", "C": "naming, engine per call", "Ddir": "naming, folder of the bare name present",
                                                         "Dfile": "naming, older file of the bare name present",
-                                                        "M": "naming, glob metacharacters in the name", "rt": "round-trip"}[kind],
+                                                        "M": "naming, glob metacharacters in the name", "rt": "round-trip",
+                                                        "rm": "load-modify-save"}[kind],
                                                        _name_of(ext), eng), r)
         if r.violated:
             raise tlc.TLCError("DsStore.tla: invariant %s violated (%s, data%s, %s)" % (r.violated, kind, ext, eng))
-        need = ["RtSave", "RtLoadEager", "RtLoadLazy"] if kind == "rt" else ["Save", "Load", "LoadNew", "SaveMerge", "HarvSync", "Delete"]
+        need = ["RtSave", "RtLoadEager", "RtLoadLazy"] if kind == "rt" else ["RmSave1", "RmLoad1", "RmModify", "RmSave2", "RmLoad2"] if kind == "rm" else ["Save", "Load", "LoadNew", "SaveMerge", "HarvSync", "Delete"]
         if ext in SIB_EXTS and not kind.startswith("D"):
             need += ["SaveSib"] + (["LoadSib"] if (thorough or kind != "M") else [])
         if kind == "M" and not thorough:
@@ -544,7 +631,7 @@ def run(rep):
                 raise tlc.TLCError("vacuous: action %s never taken (%s, data%s, %s)" % (act, kind, ext, eng))
         if not r.cases:
             raise tlc.TLCError("no case emitted (%s, data%s, %s)" % (kind, ext, eng))
-        (rts if kind == "rt" else hists).extend(r.cases)
+        (rts if kind == "rt" else rms if kind == "rm" else hists).extend(r.cases)
     # histories of run B that only use overwrite=None duplicate prefixes of run A: keep them, they are cheap
     rep.extra["histories"] = len(hists)
     rep.extra["roundtrip_configs_emitted"] = len(rts)
@@ -568,12 +655,14 @@ def run(rep):
         raise RuntimeError("binding self-test failed: replay accepts a corrupted expectation")
     else:
         rep.note("binding self-test: corrupted content / directory / attribute expectations are rejected by the replay")
-    res = common.pmap(_chk, hists + rts)
+    res = common.pmap(_chk, hists + rts + rms)
     notes = {}
     for c, bad, nts, err in res:
         if err:
             raise RuntimeError("harness failure on case %r: %s" % (c, err))
-        if "hist" in c:
+        if "rm" in c:
+            rep.add_case(["rm", c["engine"], c["rm"]], sample=None)
+        elif "hist" in c:
             ops = [s["op"] for s in c["hist"]]
             nontrivial = any(o in ("SaveMerge", "HarvFresh", "HarvSame", "Delete") for o in ops[1:])
             rep.add_case(["hist", c["ext"], c["engine"], c.get("ctor"), c.get("decoy"), [(s["op"], s["pol"]) for s in c["hist"]]], nontrivial=nontrivial,
@@ -590,7 +679,9 @@ def run(rep):
 
 
 def replay(rep, case):
-    if "hist" in case:
+    if "rm" in case:
+        bad = check_rm(case)
+    elif "hist" in case:
         bad = check_hist(case)
     else:
         bad, _ = check_rt(case)
